@@ -564,6 +564,82 @@ func execOp(line string) (res string) {
 			return "err"
 		}
 		return "ok " + nhx(k.D) + " " + ptStr(k.X, k.Y)
+	case "rng.seq":
+		// several randomised calls in a row on one tape; every result is HELD and only printed after the last call
+		// (a generator that hands out a shared buffer, or re-uses earlier randomness, shows here); stops at the first error
+		if !argc(2) {
+			return bad
+		}
+		t, ok := replayTape(a[1])
+		if !ok {
+			return bad
+		}
+		items := strings.Split(a[0], ",")
+		type held struct {
+			b   []byte
+			k   *bec.PrivateKey
+			err bool
+		}
+		var hs []held
+		badItem := false
+		withTape(t, func() {
+			for _, it := range items {
+				if len(it) < 1 {
+					badItem = true
+					return
+				}
+				n, err := strconv.Atoi(it[1:])
+				if it[0] != 'k' && (err != nil || n < 0 || n > 100000) {
+					badItem = true
+					return
+				}
+				var h held
+				switch it[0] {
+				case 's':
+					if n > 255 {
+						badItem = true
+						return
+					}
+					b, err := bip32.GenerateSeed(uint8(n))
+					h = held{b: b, err: err != nil}
+				case 'e':
+					b, err := bip39.GenerateEntropy(bip39.Entropy(n))
+					h = held{b: b, err: err != nil}
+				case 'k':
+					if len(it) != 1 {
+						badItem = true
+						return
+					}
+					k, err := bec.NewPrivateKey(curve)
+					h = held{k: k, err: err != nil}
+				default:
+					badItem = true
+					return
+				}
+				hs = append(hs, h)
+				if h.err {
+					return
+				}
+			}
+		})
+		if badItem {
+			return bad
+		}
+		if t.mismatch {
+			return "tape-mismatch"
+		}
+		out := "ok"
+		for _, h := range hs {
+			switch {
+			case h.err:
+				out += " e"
+			case h.k != nil:
+				out += " " + nhx(h.k.D) + ":" + ptStr(h.k.X, h.k.Y)
+			default:
+				out += " " + hx(h.b)
+			}
+		}
+		return out
 	case "rng.seed", "rng.entropy":
 		if !argc(2) {
 			return bad
@@ -597,7 +673,12 @@ func execOp(line string) (res string) {
 		if !argc(3) {
 			return bad
 		}
-		return execXk(a[0], a[1], a[2])
+		return execXk(a[0], a[1], a[2], false)
+	case "xkq":
+		if !argc(3) {
+			return bad
+		}
+		return execXk(a[0], a[1], a[2], true)
 	}
 	if f, ok := extraOps[op]; ok {
 		res := f(a)
